@@ -964,6 +964,27 @@ class SymMethod:
             items.pop(0)
         return SBytes(items, o.is_str)
 
+    def _just(self, it, width, fill, left):
+        o = self.obj
+        if is_sym(width):
+            width = it.ctx.concretize(width) if hasattr(it.ctx, "concretize") else None
+        if not isinstance(width, int):
+            raise Unsupported("rjust/ljust with a symbolic width")
+        f = conc_seq(fill if fill is not None else (" " if o.is_str else b" "))
+        if len(f) != 1:
+            raise Raised(TypeError("The fill character must be exactly one character long"))
+        pad = [f.items[0]] * max(0, width - len(o.items))
+        return SBytes((pad + list(o.items)) if left else (list(o.items) + pad), o.is_str)
+
+    def m_rjust(self, it, width, fill=None):
+        return self._just(it, width, fill, True)
+
+    def m_ljust(self, it, width, fill=None):
+        return self._just(it, width, fill, False)
+
+    def m_zfill(self, it, width):
+        return self._just(it, width, "0" if self.obj.is_str else b"0", True)
+
     def m_strip(self, it, chars=None):
         left = self.m_lstrip(it, chars)
         return SymMethod(left, "rstrip").m_rstrip(it, chars)
